@@ -130,7 +130,7 @@ def body_dtype(case, ctx):
 
 @st.composite
 def dtype_case(draw, tier):
-    a = draw(gen.ragged(tier))
+    a = draw(gen.ragged(tier, wide=True))
     n = len(a["lens"])
     L = max(a["lens"]) if a["lens"] else 0
     return {"a": a, "r": draw(gen.rowsel(n)), "c": draw(gen.colsel(L)), "lz": draw(st.sampled_from(LAZY_CHOICES))}
